@@ -124,6 +124,22 @@ Definition lik_gauss_precvec (prec_fun : R -> Rvec) (Ax b : Rvec) (s : R) : R :=
 Definition lik_gauss_covdiag (cov_fun : R -> Rmat) (Ax b : Rvec) (s : R) : R :=
   gaussian_of (from_cov_vector (diag_of (cov_fun s))) Ax b.
 
+
+(* ------------------------------------------------------------------------------------------------- *)
+(* dense full-matrix branches of get_sqrtprec_from_prec / get_sqrtprec_from_cov                        *)
+(* ------------------------------------------------------------------------------------------------- *)
+(* numpy's matrix_rank, slogdet (log-determinant), inv and cholesky are oracles (Section variables); their laws are
+   hypotheses of the theorems in Proofs/C10_Full.v and are checked per case by the correspondence (L^T L = P, C P = I) *)
+Section FullBranch.
+Variables (rank_fn : Rmat -> nat) (logdet_fn : Rmat -> R) (inv_fn : Rmat -> Rmat) (cholT_fn : Rmat -> Rmat).
+(* prec full: rank = matrix_rank(prec), logdet = -log det(prec), sqrtprec = cholesky(prec).T *)
+Definition from_prec_full (P : Rmat) : nat * R * Rmat := (rank_fn P, - logdet_fn P, cholT_fn P).
+(* cov full: rank = matrix_rank(cov), logdet = log det(cov), prec = inv(cov), sqrtprec = cholesky(prec).T *)
+Definition from_cov_full (C : Rmat) : nat * R * Rmat := (rank_fn C, logdet_fn C, cholT_fn (inv_fn C)).
+Definition lik_gauss_precfull (prec_fun : R -> Rmat) (Ax b : Rvec) (s : R) : R := gaussian_of (from_prec_full (prec_fun s)) Ax b.
+Definition lik_gauss_covfull (cov_fun : R -> Rmat) (Ax b : Rvec) (s : R) : R := gaussian_of (from_cov_full (cov_fun s)) Ax b.
+End FullBranch.
+
 (* "f is proportional to g as densities on s > 0": the log-ratio does not depend on s *)
 Definition proportional_on_pos (logf logg : R -> R) : Prop :=
   forall s s', 0 < s -> 0 < s' -> logf s - logg s = logf s' - logg s'.
